@@ -1,6 +1,7 @@
 package main
 
 import (
+	"time"
 	"crypto/md5"
 	"crypto/sha1"
 	"crypto/sha256"
@@ -110,6 +111,18 @@ func forByteStrings(sh byteShard, f func(s []byte)) {
 
 var hashAlgos = []string{"md5", "sha1", "sha-1", "sha256", "sha-256", "sha512", "sha-512", "sha3-256", "sha3-512"}
 
+func hashFamily(algo string) string {
+	switch {
+	case strings.HasPrefix(algo, "sha3"):
+		return "sha3"
+	case algo == "sha1" || algo == "sha-1":
+		return "sha1"
+	case strings.HasPrefix(algo, "sha"):
+		return "sha2"
+	}
+	return algo
+}
+
 func refHash(algo string, s []byte) string {
 	switch algo {
 	case "md5":
@@ -207,12 +220,13 @@ func encFailures(e *env, s []byte) map[[2]string]string {
 	}
 	for _, algo := range hashAlgos {
 		r := e.call("hash", data.NewStringValue(algo), sv)
+		fam := "hash(" + hashFamily(algo) + ")"
 		if c := crashClause(r); c != "" {
-			out[[2]string{"hash(" + algo + ")", c}] = r.Msg + r.Panic
+			out[[2]string{fam, c}] = r.Msg + r.Panic
 			continue
 		}
 		if o, ok := strOf(r); !ok || o != refHash(algo, s) {
-			out[[2]string{"hash(" + algo + ")", "digest"}] = fmt.Sprintf("hash(%q, %q) = %s, crypto reference gives %q", algo, s, show(r.V), refHash(algo, s))
+			out[[2]string{fam, "digest"}] = fmt.Sprintf("hash(%q, %q) = %s, crypto reference gives %q", algo, s, show(r.V), refHash(algo, s))
 		}
 	}
 	return out
@@ -256,13 +270,16 @@ type bytesCase struct {
 	Descr string `json:"descr"`
 }
 
+var byteCache = map[string]string{}
+
 func byteWorker(w *pool.W, arg json.RawMessage) {
 	var sh byteShard
+	t0 := time.Now()
 	json.Unmarshal(arg, &sh)
 	e := getEnv()
 	fs := &failSet{}
 	outcomes := map[string]int64{}
-	cache := map[string]string{}
+	cache := byteCache
 	fn := encFailures
 	kind := "bytes-enc"
 	per := int64(encCalls)
@@ -283,7 +300,10 @@ func byteWorker(w *pool.W, arg json.RawMessage) {
 			outcomes[cc[0]+" "+cc[1]]++
 			ck := cc[0] + "|" + cc[1] + "|" + bytesClass(s)
 			if key, ok := cache[ck]; ok {
-				fs.add(key, cc[1], 1<<30, nil, "")
+				if fs.bump(key) {
+					continue
+				}
+				fs.add(key, cc[1], 1<<29+len(s), bytesCase{Kind: kind, Codec: cc[0], Bytes: append([]byte{}, s...), Descr: fmt.Sprintf("%q", s)}, detail)
 				continue
 			}
 			red := reduceBytes(s, func(c []byte) bool { _, bad := fn(e, c)[cc]; return bad })
@@ -296,7 +316,7 @@ func byteWorker(w *pool.W, arg json.RawMessage) {
 		}
 	})
 	fs.flush(w)
-	w.Emit(rec{Kind: "count", Fam: map[bool]string{false: "byte strings -> encoders", true: "byte strings -> unstructured decoders"}[sh.Dec], N: n, Calls: n * per, Outcome: outcomes})
+	w.Emit(rec{Kind: "count", Fam: map[bool]string{false: "byte strings -> encoders", true: "byte strings -> unstructured decoders"}[sh.Dec], N: n, Calls: n * per, Outcome: outcomes, Ms: time.Since(t0).Milliseconds()})
 	if sh.First == 'a' && !sh.Dec {
 		r := e.call("rawurlencode", data.NewStringValue("a&"))
 		w.Emit(rec{Kind: "sample", Case: map[string]any{"family": "byte strings -> encoders", "input": "a&", "rawurlencode": show(r.V), "md5": show(e.call("md5", data.NewStringValue("a&")).V)}})
@@ -306,6 +326,7 @@ func byteWorker(w *pool.W, arg json.RawMessage) {
 // ---- script-level binding for byte strings of length <= 1 --------------------------------------
 
 func byteBindWorker(w *pool.W, arg json.RawMessage) {
+	t0 := time.Now()
 	e := getEnv()
 	fs := &failSet{}
 	outcomes := map[string]int64{}
@@ -373,5 +394,5 @@ func byteBindWorker(w *pool.W, arg json.RawMessage) {
 		sess.Close()
 	}
 	fs.flush(w)
-	w.Emit(rec{Kind: "count", Fam: "script binding: byte strings of length <= 1", N: n, Calls: n * 11, Outcome: outcomes})
+	w.Emit(rec{Kind: "count", Fam: "script binding: byte strings of length <= 1", N: n, Calls: n * 11, Outcome: outcomes, Ms: time.Since(t0).Milliseconds()})
 }
